@@ -211,6 +211,8 @@ class Env:
             if lo >= mn and hi <= mx:
                 return (lo, hi)
             return (mn, mx)
+        if op == "sext":
+            return self.interval(e.args[0])
         if op == "ite":
             a = self.interval(e.args[1])
             b = self.interval(e.args[2])
@@ -237,6 +239,13 @@ class Env:
     @staticmethod
     def _arith(op, a, b):
         (al, ah), (bl, bh) = a, b
+        if (al < 0 or bl < 0) and op in ("and", "or", "xor", "shl", "shr"):
+            # two's complement operands (Java): only masking with a non-negative operand bounds the result
+            if op == "and" and bl >= 0:
+                return (0, bh)
+            if op == "and" and al >= 0:
+                return (0, ah)
+            return (-INF, INF)
         if op == "add":
             return (al + bl, ah + bh)
         if op == "sub":
@@ -305,6 +314,8 @@ class Env:
         if op == "shl" and e.args[1].op == "const":
             return p_mul(self.poly(e.args[0]), p_const(1 << e.args[1].args[0]))
         if op == "div" and e.args[1].op == "const" and e.args[1].args[0] == 1:
+            return self.poly(e.args[0])
+        if op == "sext":
             return self.poly(e.args[0])
         return self._atom(e)
 
@@ -499,6 +510,15 @@ def _bits_of(e, env, width=64, structural=False):
         inner = bits_of(e.args[0], env, width)
         n = TYBITS.get(e.ty, width)
         return [inner[i] if i < n else 0 for i in range(width)]
+    if op == "sext":
+        n = TYBITS.get(e.args[0].ty, width)
+        m = TYBITS.get(e.ty, width)
+        lo, hi = env.interval(e.args[0])
+        inner = bits_of(e.args[0], env, max(width, n))
+        if lo >= 0:
+            return [inner[i] if i < n else 0 for i in range(width)]
+        top = inner[n - 1] if n - 1 < len(inner) else 0
+        return [inner[i] if i < n else ((None if top != 0 else 0) if i < m else 0) for i in range(width)]
     if op == "shl" and e.args[1].op == "const":
         k = e.args[1].args[0]
         inner = bits_of(e.args[0], env, width)
@@ -575,6 +595,21 @@ def _bits_struct(e, env, width):
     if op == "const":
         v = e.args[0]
         return [(v >> i) & 1 for i in range(width)]
+    if op == "sext":
+        # sign extension (Java widening of byte/short/int): the bits above the source width are copies of its top bit
+        n = TYBITS.get(e.args[0].ty, width)
+        m = TYBITS.get(e.ty, width)
+        inner = _bits_struct(e.args[0], env, max(width, n))
+        top = inner[n - 1] if n - 1 < len(inner) else 0
+        out = []
+        for i in range(width):
+            if i < n:
+                out.append(inner[i])
+            elif i < m:
+                out.append(0 if top == 0 else (("sx",) + top if isinstance(top, tuple) and top[0] != "sx" else top))
+            else:
+                out.append(0)
+        return out
     if op == "cast":
         inner = _bits_struct(e.args[0], env, width)
         n = TYBITS.get(e.ty, width)
@@ -608,7 +643,7 @@ def _bits_struct(e, env, width):
         return [y if x == 0 else (x if y == 0 else None) for x, y in zip(a, b)]
     k = e.key()
     env.atoms[k] = e
-    if op == "sym" and e.args[2] is not None:
+    if op == "sym" and e.args[2] is not None and not (e.args[1] is not None and e.args[1] < 0):
         n = int(e.args[2]).bit_length()
     else:
         n = TYBITS.get(e.ty, width)
